@@ -28,11 +28,19 @@ Proof. revert n; induction l; destruct n; simpl; intros; try lia; auto. f_equal.
 Lemma nth_error_nth' {A} n (d x : A) l : nth_error l n = Some x -> nth n l d = x /\ (n < length l)%nat.
 Proof. intros H. split. now apply nth_error_nth. apply nth_error_Some. congruence. Qed.
 
+Lemma flat_map_split_nth {A C} (f : A -> list C) n (d : A) l : (n < length l)%nat ->
+  flat_map f l = flat_map f (firstn n l) ++ f (nth n l d) ++ flat_map f (skipn (S n) l).
+Proof.
+  intros Hn. pose proof (nth_split' n d l Hn) as E.
+  remember (firstn n l) as a. remember (skipn (S n) l) as b. remember (nth n l d) as y.
+  rewrite E. rewrite flat_map_app. reflexivity.
+Qed.
+
 Lemma flat_map_upd_nth_perm {A C} (f : A -> list C) n (x d : A) l (extra : list C) :
   (n < length l)%nat -> Permutation (f x) (extra ++ f (nth n l d)) ->
   Permutation (flat_map f (upd_nth n x l)) (extra ++ flat_map f l).
 Proof.
-  intros Hn HP. rewrite (upd_nth_split n x l Hn). rewrite (nth_split' n d l Hn) at 3.
+  intros Hn HP. rewrite (upd_nth_split n x l Hn). rewrite (flat_map_split_nth f n d l Hn).
   rewrite !flat_map_app. simpl.
   rewrite HP. rewrite <- !app_assoc.
   rewrite (app_assoc extra). rewrite (app_assoc (flat_map f (firstn n l))).
@@ -43,7 +51,7 @@ Lemma flat_map_upd_nth_perm' {A C} (f : A -> list C) n (x d : A) l (extra : list
   (n < length l)%nat -> Permutation (extra ++ f x) (f (nth n l d)) ->
   Permutation (extra ++ flat_map f (upd_nth n x l)) (flat_map f l).
 Proof.
-  intros Hn HP. rewrite (upd_nth_split n x l Hn). rewrite (nth_split' n d l Hn) at 3.
+  intros Hn HP. rewrite (upd_nth_split n x l Hn). rewrite (flat_map_split_nth f n d l Hn).
   rewrite !flat_map_app. simpl. rewrite <- HP. rewrite <- !app_assoc.
   rewrite (app_assoc extra). rewrite (app_assoc (flat_map f (firstn n l))).
   apply Permutation_app_tail. apply Permutation_app_comm.
